@@ -19,9 +19,12 @@ import (
 	"regexp"
 	"sort"
 	"strconv"
+	"strings"
 
 	"github.com/sarchlab/akita/v4/mem/mem"
 	"github.com/sarchlab/akita/v4/sim"
+	"github.com/sarchlab/akita/v4/simulation"
+	"github.com/sarchlab/mgpusim/v4/amd/samples/runner/timingconfig"
 	"github.com/sarchlab/mgpusim/v4/amd/timing/rdma"
 
 	ab "verifharness/akitabench"
@@ -71,7 +74,8 @@ var portKeys = map[string]string{
 	"RDMARequestInside": "rqi", "RDMARequestOutside": "rqo", "RDMADataOutside": "dto",
 	"RDMADataInside": "dti", "CtrlPort": "ctl",
 }
-var reComp = regexp.MustCompile(`^R(\d+)\.(\w+)$`)
+var reComp = regexp.MustCompile(`^(?:R|GPU\[)(\d+)(?:\]\.RDMA)?\.(\w+)$`)
+var reL2 = regexp.MustCompile(`^GPU\[(\d+)\]\.L2Cache\[(\d+)\]\.\w+$`)
 var reAgent = regexp.MustCompile(`^(L1|L2|CP)_(\d+)_(\d+)$`)
 
 // portRef maps a port name of the run to the port reference of the spec.
@@ -82,6 +86,11 @@ func portRef(name sim.RemotePort) ab.Rec {
 			g, _ := strconv.Atoi(m[1])
 			return ab.Rec{"g": g, "k": k, "b": 0}
 		}
+	}
+	if m := reL2.FindStringSubmatch(s); m != nil {
+		g, _ := strconv.Atoi(m[1])
+		b, _ := strconv.Atoi(m[2])
+		return ab.Rec{"g": g, "k": "l2", "b": b}
 	}
 	if m := reAgent.FindStringSubmatch(s); m != nil {
 		g, _ := strconv.Atoi(m[2])
@@ -117,18 +126,39 @@ type world struct {
 	stats   map[string]int
 	dead    bool
 	inFl    int // roots not yet answered (driver's own bookkeeping, not logged)
+	lastProgress int
+	unit    uint64 // addresses are logged in this unit (1, or 64 on the real platform whose addresses exceed 2^31)
+	manual  bool   // the engines are ticked by calling Tick() (real platform: its own engine is never run)
+	nobank  bool   // do not log the L2 bank index (not part of the configuration under test)
+}
+
+func (w *world) addr(a uint64) interface{} {
+	if w.unit <= 1 {
+		return a
+	}
+	if a%w.unit != 0 {
+		return -1
+	}
+	return a / w.unit
 }
 
 func (w *world) dump(msg sim.Msg) ab.Rec {
 	meta := msg.Meta()
 	out := ab.Rec{"src": portRef(meta.Src), "dst": portRef(meta.Dst)}
+	if w.nobank {
+		for _, k := range []string{"src", "dst"} {
+			if r := out[k].(ab.Rec); r["k"] == "l2" {
+				r["b"] = 0
+			}
+		}
+	}
 	switch m := msg.(type) {
 	case *mem.ReadReq:
 		out["t"], out["id"] = "req", w.rec.ID("m", meta.ID)
-		out["p"] = ab.Rec{"k": "r", "a": m.Address, "n": m.AccessByteSize, "d": []int{}, "m": []int{}}
+		out["p"] = ab.Rec{"k": "r", "a": w.addr(m.Address), "n": m.AccessByteSize, "d": []int{}, "m": []int{}}
 	case *mem.WriteReq:
 		out["t"], out["id"] = "req", w.rec.ID("m", meta.ID)
-		out["p"] = ab.Rec{"k": "w", "a": m.Address, "n": uint64(len(m.Data)), "d": ab.Bytes(m.Data), "m": ab.Bools(m.DirtyMask)}
+		out["p"] = ab.Rec{"k": "w", "a": w.addr(m.Address), "n": uint64(len(m.Data)), "d": ab.Bytes(m.Data), "m": ab.Bools(m.DirtyMask)}
 	case *mem.DataReadyRsp:
 		out["t"], out["id"] = "rsp", w.rec.ID("m", meta.ID)
 		out["to"], out["k"], out["d"] = w.rec.ID("m", m.GetRspTo()), "dr", ab.Bytes(m.Data)
@@ -175,12 +205,17 @@ func stepName(e, k string, m ab.Rec) string {
 	return ""
 }
 
-func newWorld(rec *ab.Recorder, cfg Config) *world {
+func baseWorld(rec *ab.Recorder, cfg Config) *world {
 	w := &world{rec: rec, eng: ab.NewEngine(), cfg: cfg, comps: map[int]*rdma.Comp{},
 		ports: map[int]map[string]sim.Port{}, byNm: map[sim.RemotePort]sim.Port{},
 		root: map[string]int{}, lastReq: map[int]map[string]mem.AccessReq{}, phase: map[int]string{},
-		count: map[int]map[string]int{}, expect: map[int]map[string]int{}, stats: map[string]int{}}
+		count: map[int]map[string]int{}, expect: map[int]map[string]int{}, stats: map[string]int{}, unit: 1}
 	rec.ResetIDs()
+	return w
+}
+
+func newWorld(rec *ab.Recorder, cfg Config) *world {
+	w := baseWorld(rec, cfg)
 	remote := mem.NewBankedAddressPortMapper(cfg.Span)
 	for g := 0; g <= cfg.NGpu; g++ {
 		remote.LowModules = append(remote.LowModules, compPort(g, "RDMADataOutside"))
@@ -197,6 +232,14 @@ func newWorld(rec *ab.Recorder, cfg Config) *world {
 			WithOutgoingReqPerCycle(cfg.Widths[0]).WithOutgoingRspPerCycle(cfg.Widths[1]).
 			WithIncomingReqPerCycle(cfg.Widths[2]).WithIncomingRspPerCycle(cfg.Widths[3]).
 			Build(fmt.Sprintf("R%d", g))
+		w.attach(g, c, conn)
+	}
+	return w
+}
+
+// attach registers engine c as GPU g and hooks its five ports (conn nil: the ports are already plugged).
+func (w *world) attach(g int, c *rdma.Comp, conn *ab.Conn) {
+	{
 		w.comps[g] = c
 		w.ports[g] = map[string]sim.Port{}
 		w.phase[g] = "run"
@@ -207,7 +250,9 @@ func newWorld(rec *ab.Recorder, cfg Config) *world {
 			p := c.GetPortByName(long)
 			w.ports[g][k] = p
 			w.byNm[p.AsRemote()] = p
-			conn.PlugIn(p)
+			if conn != nil {
+				conn.PlugIn(p)
+			}
 			p.AcceptHook(ab.HookFn(func(ctx sim.HookCtx) {
 				e, ok := hookNames[ctx.Pos]
 				if !ok {
@@ -223,7 +268,6 @@ func newWorld(rec *ab.Recorder, cfg Config) *world {
 			}))
 		}
 	}
-	return w
 }
 
 // track follows which root request a message belongs to, so that scenario steps
@@ -268,6 +312,15 @@ func (w *world) tick(n int) {
 					w.rec.Emit("Panic", ab.Rec{"msg": fmt.Sprint(r)})
 				}
 			}()
+			if w.manual {
+				for _, g := range w.compList() {
+					if w.comps[g].Tick() {
+						w.stats["manual_progress"]++
+						w.lastProgress = w.cyc
+					}
+				}
+				return
+			}
 			w.eng.RunUntil(ab.Cycle(w.cyc))
 		}()
 	}
@@ -616,7 +669,7 @@ func (w *world) finish() {
 		if w.dead {
 			return
 		}
-		if w.eng.Events != before {
+		if w.eng.Events != before || (w.manual && w.lastProgress == w.cyc) {
 			progress = true
 		}
 		if !progress && w.eng.Pending() == 0 {
@@ -734,6 +787,152 @@ func (w *world) random(rng *rand.Rand, n, drains int) {
 	}
 }
 
+// ---------------------------------------------------------------- real platform
+// platform builds the real multi-GPU timing platform with the repository's own
+// builders and exercises the RDMA engines in situ: their ports stay plugged into
+// the platform's connections, the platform's engine is never run, the engines
+// are stepped by calling Tick() and the harness moves the messages.  What is
+// under test here is the configuration the builders gave the engines (the
+// RemoteRDMAAddressTable of timingconfig, the local module finder of the GPU
+// builder).  The memory range each GPU regards as local is first measured on the
+// engines themselves (unlogged probes of the local module finder: local
+// addresses go to an L2, all others are bounced to RDMARequestInside); the logged
+// run then sends accesses from every GPU to addresses of every other GPU's
+// range (boundaries included) all the way to the owner's L2 and back.
+type memRange struct{ lo, hi uint64 }
+
+const line = 64
+
+func measureLocalRange(c *rdma.Comp, g int) (memRange, bool) {
+	dto, dti := c.GetPortByName("RDMADataOutside"), c.GetPortByName("RDMADataInside")
+	bounce := c.GetPortByName("RDMARequestInside").AsRemote()
+	isLocal := func(a uint64) bool {
+		req := mem.ReadReqBuilder{}.WithSrc("Probe").WithDst(dto.AsRemote()).WithAddress(a).WithByteSize(4).Build()
+		if dto.Deliver(req) != nil {
+			panic("probe: cannot deliver")
+		}
+		c.Tick()
+		out := dti.RetrieveOutgoing()
+		if out == nil {
+			panic("probe: request not handed on")
+		}
+		local := out.Meta().Dst != bounce
+		// answer, so that no transaction is left behind in the engine
+		rsp := mem.DataReadyRspBuilder{}.WithSrc(out.Meta().Dst).WithDst(dti.AsRemote()).WithRspTo(out.Meta().ID).WithData([]byte{0, 0, 0, 0}).Build()
+		if dti.Deliver(rsp) != nil {
+			panic("probe: cannot answer")
+		}
+		c.Tick()
+		if dto.RetrieveOutgoing() == nil {
+			panic("probe: no answer")
+		}
+		return local
+	}
+	const stride = 256 << 20
+	var inside uint64
+	found := false
+	for a := uint64(0); a < 1<<38; a += stride {
+		if isLocal(a) {
+			inside, found = a, true
+			break
+		}
+	}
+	if !found {
+		return memRange{}, false
+	}
+	lo, hi := uint64(0), inside // smallest local line in (lo, hi]: isLocal(hi) holds
+	if isLocal(0) {
+		hi = 0
+	}
+	for hi-lo > line && hi != 0 {
+		mid := (lo + (hi-lo)/2) / line * line
+		if isLocal(mid) {
+			hi = mid
+		} else {
+			lo = mid
+		}
+	}
+	r := memRange{lo: hi}
+	lo, hi = inside, uint64(1<<40) // first non-local line after inside in (lo, hi]
+	for hi-lo > line {
+		mid := (lo + (hi-lo)/2) / line * line
+		if isLocal(mid) {
+			lo = mid
+		} else {
+			hi = mid
+		}
+	}
+	r.hi = hi
+	return r, true
+}
+
+func platform(rec *ab.Recorder, gpuType string, n int, rng *rand.Rand, stats map[string]int) {
+	s := simulation.MakeBuilder().WithoutMonitoring().Build()
+	defer s.Terminate()
+	timingconfig.MakeBuilder().WithSimulation(s).WithNumGPUs(n).WithGPUType(gpuType).Build()
+	cfg := Config{NGpu: n, Buf: 128}
+	ranges := map[int]memRange{}
+	engines := map[int]*rdma.Comp{}
+	for g := 1; g <= n; g++ {
+		c, ok := s.GetComponentByName(fmt.Sprintf("GPU[%d].RDMA", g)).(*rdma.Comp)
+		if !ok {
+			panic("no RDMA engine for GPU " + strconv.Itoa(g))
+		}
+		engines[g] = c
+		r, ok := measureLocalRange(c, g)
+		if !ok {
+			panic("GPU " + strconv.Itoa(g) + " regards no address as local")
+		}
+		ranges[g] = r
+		cfg.Comps = append(cfg.Comps, g)
+	}
+	var rl [][3]uint64
+	for g := 1; g <= n; g++ {
+		rl = append(rl, [3]uint64{uint64(g), ranges[g].lo / line, ranges[g].hi / line})
+	}
+	rec.Emit("Reset", ab.Rec{"comps": cfg.Comps, "ranges": rl, "il": 1, "nb": 0, "buf": cfg.Buf, "ngpu": n,
+		"platform": gpuType, "unit": line})
+	w := baseWorld(rec, cfg)
+	w.unit, w.manual, w.nobank = line, true, true
+	for g := 1; g <= n; g++ {
+		w.attach(g, engines[g], nil)
+	}
+	for g := 1; g <= n && !w.dead; g++ {
+		for o := 1; o <= n && !w.dead; o++ {
+			if o == g {
+				continue
+			}
+			r := ranges[o]
+			lines := (r.hi - r.lo) / line
+			addrs := []uint64{r.lo, r.hi - line, r.lo + uint64(rng.Int63n(int64(lines)))*line, r.lo + uint64(rng.Int63n(int64(lines)))*line}
+			for i, a := range addrs {
+				p := &Payload{K: "r", A: a, N: 4}
+				if i%2 == 1 {
+					p = &Payload{K: "w", A: a, N: 4, D: []int{1 + g, 2 + o, i, 7}, M: []int{1, 0, 1, 1}}
+				}
+				for _, st := range []Step{{A: "L1Req", C: g, S: i % 2, P: p}, {A: "Tick"}, {A: "NetTakeReq", C: g},
+					{A: "NetDeliverReq", Root: w.nRoot + 1}, {A: "Tick"}, {A: "L2Take", C: o},
+					{A: "L2Rsp", Root: w.nRoot + 1, D: []int{g, o, i, 9}}, {A: "Tick"}, {A: "NetTakeRsp", C: o},
+					{A: "NetDeliverRsp", Root: w.nRoot + 1}, {A: "Tick"}, {A: "L1Take", C: g}} {
+					if st.Root != 0 && st.A != "NetDeliverReq" {
+						st.Root = w.nRoot
+					}
+					w.step(st)
+				}
+			}
+		}
+	}
+	w.finish()
+	for k, v := range w.stats {
+		stats[k] += v
+	}
+	if w.dead {
+		stats["panics"]++
+	}
+	stats["roots"] += w.nRoot
+	stats["platform_runs"]++
+}
+
 func randConfig(rng *rand.Rand) Config {
 	ngpu := 2 + rng.Intn(3) // owners 0..ngpu
 	var comps []int
@@ -770,6 +969,7 @@ func main() {
 	nrand := flag.Int("random", 0, "number of random runs")
 	reqs := flag.Int("reqs", 24, "requests per random run")
 	seed := flag.Int64("seed", 1, "seed")
+	plat := flag.String("platform", "", "comma separated type:ngpu list of real platforms to probe, e.g. r9nano:2,mi300a:4")
 	flag.Parse()
 
 	f, err := os.Create(*out)
@@ -781,7 +981,11 @@ func main() {
 	traces := 0
 	stats := map[string]int{}
 	begin := func(cfg Config) *world {
-		rec.Emit("Reset", ab.Rec{"comps": cfg.Comps, "span": cfg.Span, "il": cfg.Il, "nb": cfg.Nb, "buf": cfg.Buf,
+		var rl [][3]uint64
+		for g := 0; g <= cfg.NGpu; g++ {
+			rl = append(rl, [3]uint64{uint64(g), uint64(g) * cfg.Span, uint64(g+1) * cfg.Span})
+		}
+		rec.Emit("Reset", ab.Rec{"comps": cfg.Comps, "ranges": rl, "il": cfg.Il, "nb": cfg.Nb, "buf": cfg.Buf,
 			"ngpu": cfg.NGpu, "widths": cfg.Widths[:]})
 		traces++
 		return newWorld(rec, cfg)
@@ -821,6 +1025,14 @@ func main() {
 		w := begin(randConfig(rng))
 		w.random(rng, *reqs, rng.Intn(4))
 		end(w)
+	}
+	if *plat != "" {
+		for _, item := range strings.Split(*plat, ",") {
+			parts := strings.Split(item, ":")
+			n, _ := strconv.Atoi(parts[1])
+			platform(rec, parts[0], n, rng, stats)
+			traces++
+		}
 	}
 	bw.Flush()
 	f.Close()
